@@ -495,3 +495,64 @@ Section PchipProofs.
     rewrite E. apply hermite_const.
   Qed.
 End PchipProofs.
+
+(* ------------------------------------------------------------------ *)
+(* Histories                                                           *)
+(* ------------------------------------------------------------------ *)
+Section HistoryProofs.
+  Context {F : Type} {O : FOps F}.
+
+  Lemma check_coarse_exclusive keep (e : option nat) (i : option (list F)) :
+    fst (check_coarse keep e i) = None \/ snd (check_coarse keep e i) = None
+    \/ (e = None \/ i = None).
+  Proof. destruct e, i, keep; cbn; auto. Qed.
+
+  Lemma fstep_exclusive (s : @fstate F) o : exclusive s -> exclusive (fstep s o).
+  Proof.
+    unfold exclusive. intros H. destruct o as [x|x|k|l|l]; cbn; auto.
+    - destruct k, (s_inp s); cbn; auto.
+    - destruct (s_every s), l; cbn; auto.
+  Qed.
+
+  Lemma frun_exclusive ops : forall s : @fstate F, exclusive s -> exclusive (frun s ops).
+  Proof.
+    induction ops as [|o ops IH]; intros s H; cbn; [exact H|]. apply IH. now apply fstep_exclusive.
+  Qed.
+
+  Lemma finit_exclusive fmin fmax e i (req : list F) : exclusive (finit fmin fmax e i req).
+  Proof. unfold exclusive, finit. destruct e, i; cbn; auto. Qed.
+
+  Lemma frun_app (s : @fstate F) a b : frun s (a ++ b) = frun (frun s a) b.
+  Proof. unfold frun. apply fold_left_app. Qed.
+
+  Lemma set_fmax_last_wins_lemma (s : @fstate F) ops x :
+    s_fmax (frun s (ops ++ [SetFmax x])) = x /\
+    s_fmin (frun s (ops ++ [SetFmax x])) = s_fmin (frun s ops) /\
+    s_req (frun s (ops ++ [SetFmax x])) = s_req (frun s ops).
+  Proof. rewrite frun_app. cbn. auto. Qed.
+
+  Lemma coarse_exclusive_lemma fmin fmax e i (req : list F) ops :
+    exclusive (frun (finit fmin fmax e i req) ops).
+  Proof. apply frun_exclusive, finit_exclusive. Qed.
+
+  Variable leb : F -> F -> bool.
+  Hypothesis leb_total : forall x y, leb x y = true \/ leb y x = true.
+  Hypothesis leb_trans : forall x y z, leb x y = true -> leb y z = true -> leb x z = true.
+  Variable logf : F -> F.
+  Variable spline1 : list F -> list F -> F -> F.
+  Variable pchip1 : list F -> list F -> F -> F.
+  Variable tiny : F.
+
+  (* after ANY history the spectrum is 0 above the CURRENT fmax *)
+  Lemma above_is_zero_history s0 ops fdata out i d :
+    let s := frun s0 ops in
+    leb (s_fmin s) (s_fmax s) = true ->
+    interpolate_state leb logf spline1 pchip1 tiny s fdata = Some out ->
+    i < List.length (s_req s) -> ltb leb (s_fmax s) (nth i (s_req s) d) = true ->
+    nth i out czero = czero.
+  Proof.
+    intros s Hb H Hi Ha. unfold interpolate_state, interpolate in H.
+    exact (above_is_zero_lemma leb leb_total leb_trans logf spline1 pchip1 tiny (list_eqb leb)
+             _ _ _ _ _ fdata out i d Hb H Hi Ha).
+  Qed.
+End HistoryProofs.
